@@ -951,7 +951,7 @@ def eval_case(args):
                 fid = FINDING_SUBSET
             rec["fails"].append(dict(
                 desc="file written by %s is reported with violations: %s" %
-                     (case["path"], msgs), finding=fid))
+                     (case["path"], msgs), finding=fid, tag="clean"))
         if case["path"] == "writer" and extra.get("pre") is not None:
             # writer's metadata completion vs Model.rectify
             sc = cabs["sc"]
@@ -1000,7 +1000,8 @@ def eval_case(args):
             if ids2 == [[-1, 0, 0]]:
                 crec["fails"].append(dict(
                     desc="the checker raises instead of reporting after "
-                         "%s: %s" % (applied, msgs2), finding=None))
+                         "%s: %s" % (applied, msgs2), finding=None,
+                    tag="raises"))
             else:
                 # an expectation of step s stays valid when a later step did
                 # not touch the same object; only independent pairs are
@@ -1017,7 +1018,7 @@ def eval_case(args):
                                 desc="seeded corruption %s %s is not "
                                      "reported (expected %s; reported: %s)" %
                                      (kind, applied[s][1], e, msgs2),
-                                finding=fid))
+                                finding=fid, tag="silent:" + kind))
             recs.append(crec)
             cur = cpath
         # --- same violations after compress / repack
@@ -1084,7 +1085,7 @@ def eval_case(args):
                     r["fails"].append(dict(
                         desc="violations differ after dclab-%s although the "
                              "copy preserves all checked content: %s vs %s" %
-                             (tool, va, vb), finding=None))
+                             (tool, va, vb), finding=None, tag="copy"))
                 recs.append(r)
     finally:
         shutil.rmtree(d, ignore_errors=True)
@@ -1249,9 +1250,19 @@ def feed(run, records):
         kind = r["kind"]
         run.count("record:" + kind)
         if kind == "build-error":
+            # a write path that fails produces no file: not this property
+            # (C08/C09/C10); counted and noted
             run.record_case(r["case"], False)
-            run.oracle_failure(r["case"], "dclab write path %s failed: %s" % (
-                r["case"]["path"], r["error"]), None)
+            key = "build-error:%s:%s" % (r["case"]["path"],
+                                         r["error"].split(":")[0])
+            run.count(key)
+            if len(run.notes) < 5:
+                run.notes.append("write path failed (no file to check): %s "
+                                 "%s" % (r["case"]["path"], r["error"][:200]))
+            if r["case"]["path"] in ("writer", "compress", "repack"):
+                run.oracle_failure(r["case"], "dclab write path %s failed: "
+                                   "%s" % (r["case"]["path"], r["error"]),
+                                   None)
             continue
         if kind == "harness-error":
             run.broken.append(("harness(C13)", r["error"] + " | " + r["tb"]))
@@ -1260,7 +1271,8 @@ def feed(run, records):
             run.count("copy-skipped:%s:%s" % (r["tool"], r["error"]))
             continue
         for f in r.get("fails", []):
-            run.oracle_failure(r["case"], f["desc"], f["finding"])
+            run.oracle_failure(dict(r["case"], fail_tag=f.get("tag")),
+                               f["desc"], f["finding"])
         if kind == "copy":
             run.record_case(r["case"], True, sample=False)
             run.count("copy:%s:%s" % (r["tool"], "preserved" if r["preserved"]
@@ -1307,9 +1319,12 @@ def feed(run, records):
 
 # --------------------------------------------------------------------------
 def shrink(run, failure):
-    case = failure["case"]
+    case = dict(failure["case"])
     if "recipe" not in case:
         return failure
+    failure = dict(failure, tag=case.pop("fail_tag", None))
+
+    want = failure.get("tag")
 
     def fails(c):
         try:
@@ -1319,10 +1334,9 @@ def shrink(run, failure):
             return None
         for r in recs:
             for f in r.get("fails", []):
-                if f["finding"] is None:
+                if f["finding"] is None and (want is None
+                                             or f.get("tag") == want):
                     return f["desc"]
-            if r["kind"] == "build-error":
-                return r["error"]
         return None
 
     best = dict(case)
@@ -1382,11 +1396,11 @@ def search(run, broken):
     cases = [gen_case(rng, 100 + i) for i in range(1500 if run.thorough
                                                   else 500)]
     for r in evaluate(cases, run.scratch):
-        if r["kind"] == "build-error":
-            return shrink(run, dict(case=r["case"], desc=r["error"]))
         for f in r.get("fails", []):
             if f["finding"] is None:
-                return shrink(run, dict(case=r["case"], desc=f["desc"]))
+                return shrink(run, dict(case=dict(r["case"],
+                                                  fail_tag=f.get("tag")),
+                                        desc=f["desc"]))
     return None
 
 
